@@ -141,8 +141,8 @@ pub fn cfg_strategy(p: Profile, thorough: bool) -> BoxedStrategy<Cfg> {
     // a second relationship type in half of the configurations that have hierarchies
     let offset = prop_oneof![6 => Just(0u16), 3 => 40u16..70, 1 => 8170u16..8200];
     let fns = prop_oneof![5 => Just(0u8), 2 => Just(1u8), 2 => Just(2u8), 1 => Just(3u8)];
-    let inner = (cfg_strategy_inner(p, thorough), any::<bool>(), offset, proptest::bool::weighted(0.3), fns, proptest::bool::weighted(0.3), proptest::bool::weighted(0.4))
-        .prop_map(move |(c, o, entity_offset, markers, custom_fns, split_plugins, noise)| Cfg { noise, split_plugins, owners: (o || matches!(p, Profile::Related)) && c.children, entity_offset, markers, custom_fns, ..c })
+    let inner = (cfg_strategy_inner(p, thorough), any::<bool>(), offset, proptest::bool::weighted(0.3), fns, proptest::bool::weighted(0.3), proptest::bool::weighted(0.4), proptest::bool::weighted(0.4), proptest::bool::weighted(0.3))
+        .prop_map(move |(c, o, entity_offset, markers, custom_fns, split_plugins, noise, trig_map, client_variants)| Cfg { noise, trig_map, client_variants, split_plugins, owners: (o || matches!(p, Profile::Related)) && c.children, entity_offset, markers, custom_fns, ..c })
         .boxed();
     if matches!(p, Profile::Events | Profile::Events3 | Profile::Sessions | Profile::Auth | Profile::Lossy | Profile::Split | Profile::Tracked) {
         (inner, varint_edge_start())
@@ -162,11 +162,11 @@ pub fn cfg_strategy(p: Profile, thorough: bool) -> BoxedStrategy<Cfg> {
 }
 
 fn cfg_strategy_inner(p: Profile, thorough: bool) -> BoxedStrategy<Cfg> {
-    let max_clients = 3usize;
     let sizes = prop_oneof![Just(60usize), Just(200), Just(1200)];
     let base = (
-        1..=max_clients,
-        proptest::collection::vec(sizes, 3),
+        // a fourth client in one configuration of ten (profiles that cap the number of clients keep their cap)
+        prop_oneof![3 => Just(1usize), 3 => Just(2usize), 3 => Just(3usize), 1 => Just(4usize)],
+        proptest::collection::vec(sizes, 4),
         prop_oneof![4 => Just(0u8), 1 => Just(1u8), 1 => Just(2u8)],
         if thorough { 4usize..=8 } else { 4usize..=6 },
         any::<bool>(),
@@ -412,7 +412,7 @@ pub fn step_strategy(cfg: &Cfg, p: Profile) -> BoxedStrategy<Step> {
         w(cfg.faults, 4),
         (0..clients, 0..slots, 0u8..16, proptest::bool::weighted(0.4)).prop_map(|(client, slot, what, restart)| Step::FaultEpisode { client, slot, what, restart }).boxed(),
     ));
-    v.push((w(cfg.faults, 2), prop_oneof![2 => Just(Step::ServerRestart), 2 => Just(Step::ServerStop), 3 => Just(Step::ServerStart)].boxed()));
+    v.push((w(cfg.faults, 2), prop_oneof![2 => Just(Step::ServerRestart), 2 => Just(Step::ServerStop), 1 => Just(Step::ServerStopAbrupt), 3 => Just(Step::ServerStart)].boxed()));
     v.push((w(cfg.auth == 1, 3), (0..clients).prop_map(|client| Step::Authorize { client }).boxed()));
     v.push((
         w(lossy, 1),
@@ -433,6 +433,9 @@ pub fn step_strategy(cfg: &Cfg, p: Profile) -> BoxedStrategy<Step> {
     } else if cfg.auth == 2 {
         v.push((4, (0..clients, any::<u16>(), any::<u16>()).prop_map(|(client, chan, idx)| Step::DeliverCEv { client, chan, idx }).boxed()));
         v.push((2, (0..clients, any::<u16>(), any::<u16>()).prop_map(|(client, chan, idx)| Step::DeliverSEv { client, chan, idx }).boxed()));
+        // the link may lose whatever travels on a channel declared unreliable (on the unchanged tree the handshake does not)
+        v.push((2, (0..clients, any::<u16>(), any::<u16>()).prop_map(|(client, chan, idx)| Step::DropCEv { client, chan, idx }).boxed()));
+        v.push((1, (0..clients, any::<u16>(), any::<u16>()).prop_map(|(client, chan, idx)| Step::DropSEv { client, chan, idx }).boxed()));
     }
     let v: Vec<_> = v.into_iter().filter(|(w, _)| *w > 0).collect();
     proptest::strategy::Union::new_weighted(v).boxed()
